@@ -15,7 +15,9 @@ func init() {
 	checks["C07"] = checkC07
 	rules["C07"] = "every string of <=n tokens over {a,‹,›,×,LF,E2,80,B9}; all well-formed ones additionally against a scanner-based model of Redact/StripMarkers; all ordered pairs of short well-formed valid-UTF-8 redactables for the concatenation laws; distinct = distinct Redact outputs"
 	replayers["C07/arbitrary"] = func(c *Ctx, raw json.RawMessage) string {
-		var cs struct{ S []byte `json:"s"` }
+		var cs struct {
+			S []byte `json:"s"`
+		}
 		json.Unmarshal(raw, &cs)
 		cl, d := c07Eval(cs.S)
 		_ = cl
